@@ -7,6 +7,7 @@
 package main
 
 import (
+	"bytes"
 	"context"
 	"encoding/json"
 	"fmt"
@@ -21,10 +22,13 @@ import (
 	"go.uber.org/zap/zaptest/observer"
 
 	"github.com/mholt/caddy-l4/layer4"
+	_ "github.com/mholt/caddy-l4/modules/l4http"
 	_ "github.com/mholt/caddy-l4/modules/l4subroute"
 
+	"verif/mc/enum"
 	"verif/mc/explore"
 	"verif/mc/hm"
+	"verif/mc/mrun"
 	"verif/mc/runner"
 	"verif/mc/vnet"
 	"verif/mc/vsched"
@@ -109,6 +113,10 @@ func routesFor(sc *Scn) string {
 	switch sc.Routes {
 	case "undecided":
 		return "[" + und + "]"
+	case "h2":
+		// the shipped http matcher: an HTTP/2 prior-knowledge request that arrives in two
+		// segments is undecided after the first and decided after the second
+		return `[{"match":[{"http":[{}]}],"handle":[{"handler":"h_timed"}]}]`
 	case "errset":
 		// two OR'ed matcher sets: the first fails with a matcher error on the client's bytes, the
 		// second would match them - matching ends by the error (fail closed), no handler runs
@@ -201,6 +209,14 @@ func execute(x *explore.Exec, sc *Scn) *result {
 				case "bad":
 					cl.Write([]byte("BAD!"))
 					res.firstByteAt = vsched.NowNS()
+				case "h2split":
+					req := h2Request()
+					cut := 18 + sc.Delta%(len(req)-19) // somewhere behind the PRI line, inside the frames
+					cl.Write(req[:cut])
+					res.firstByteAt = vsched.NowNS()
+					vtime.Sleep(T / 3)
+					cl.Write(req[cut:])
+					cl.CloseWrite()
 				case "exact":
 					cl.Write(make([]byte, chunk)) // exactly one prefetch chunk, then silence
 					res.firstByteAt = vsched.NowNS()
@@ -357,6 +373,10 @@ func check(x *explore.Exec, sc *Scn, r *result) {
 		if ref >= 0 && noTimeDev && abortAt > ref+T+eps {
 			x.Fail("matching-outlasts-timeout:"+sc.Proto, "matching ended %.3fs after it started, later than the %.3fs timeout (no thread was delayed); %s", float64(abortAt-ref)/1e9, float64(T)/1e9, desc())
 		}
+	case "h2":
+		if noTimeDev && !handlerStarted {
+			x.Fail("decided-route-did-not-run", "the http route matches the complete HTTP/2 request, whose second half arrived a third of the matching timeout after the first, yet its handler never ran (abort: %q); %s", abortErr, desc())
+		}
 	case "errset":
 		if handlerStarted {
 			x.Fail("handler-after-matcher-error", "a handler ran although matching ended by a matcher error (fail closed); %s", desc())
@@ -406,6 +426,30 @@ func check(x *explore.Exec, sc *Scn, r *result) {
 	x.Observe(abortAt, abortErr, handlerStarted, handlerBytes, r.pulled > 0)
 }
 
+// h2Request returns the HTTP/2 prior-knowledge sample of the l4http tests (client preface,
+// SETTINGS, HEADERS).
+var h2Sample []byte
+
+func h2Request() []byte {
+	if h2Sample != nil {
+		return h2Sample
+	}
+	l, err := mrun.Load(mrun.Spec{Module: "http", Config: json.RawMessage(`[{}]`)})
+	if err != nil {
+		panic(err)
+	}
+	defer l.Close()
+	for _, b := range enum.CorpusFromTests("/repo/modules/l4http") {
+		if bytes.HasPrefix(b, []byte("PRI * HTTP/2.0\r\n\r\nSM\r\n\r\n")) && len(b) > 60 {
+			if cx, _ := mrun.Conn(b, false); l.Eval(cx).V == "yes" { // a request the matcher accepts when it arrives whole
+				h2Sample = b
+				return b
+			}
+		}
+	}
+	panic("no HTTP/2 prior-knowledge sample in the l4http tests")
+}
+
 func baseOf(sc *Scn) time.Time { return time.Date(2026, 1, 2, 3, 4, 5, sc.Phase*1e6, time.UTC) }
 
 func scenarios(tier string, yield func(any) bool) {
@@ -415,7 +459,7 @@ func scenarios(tier string, yield func(any) bool) {
 	for _, proto := range []string{"tcp", "udp"} {
 		for _, T := range timeouts {
 			for _, ph := range phases {
-				for _, routes := range []string{"undecided", "und2", "errset", "nonterm", "sub", "decide", "needbig", "eatbig"} {
+				for _, routes := range []string{"undecided", "und2", "errset", "h2", "nonterm", "sub", "decide", "needbig", "eatbig"} {
 					var clients []string
 					switch routes {
 					case "undecided":
@@ -424,6 +468,8 @@ func scenarios(tier string, yield func(any) bool) {
 						clients = []string{"exact"}
 					case "errset":
 						clients = []string{"bad"}
+					case "h2":
+						clients = []string{"h2split"}
 					case "nonterm", "sub":
 						clients = []string{"trickle"}
 					case "decide":
@@ -438,6 +484,12 @@ func scenarios(tier string, yield func(any) bool) {
 						ds := []int{0}
 						if cl == "trickle" {
 							ds = deltas
+						}
+						if cl == "h2split" {
+							if proto == "udp" || ph != 0 {
+								continue
+							}
+							ds = []int{0, 7, 31, 60, 97} // where the request is cut (offset behind the PRI line)
 						}
 						for _, d := range ds {
 							if !yield(&Scn{Proto: proto, Routes: routes, Client: cl, Timeout: T, Delta: d, Phase: ph}) {
